@@ -68,8 +68,7 @@ func newChangeMessage[T any](op Operation, key string, value, oldValue *T, opts 
 	}
 
 	// Determine entity type
-	var zero T
-	entityType := EntityType(zero)
+	entityType := entityTypeOf[T]()
 	if cfg.entityType != "" {
 		entityType = cfg.entityType
 	}
